@@ -94,6 +94,9 @@ func msgBytes(csid int, typ uint8, msid uint32, ts uint32, payload []byte) []byt
 	return b
 }
 
+// stagePrefixTail: nothing (the stage prefix itself is sent by the runner).
+func stagePrefixTail(stage string) []byte { return nil }
+
 func stagePrefix(stage string) (pre []byte) {
 	cmds := [][]byte{
 		msgBytes(3, 20, 0, 0, amf(s("connect"), n(1), connectObj())),
@@ -152,7 +155,7 @@ func genInput(gen string) []byte {
 func runCase(c protox.Case) (res protox.Result) {
 	var d caseData
 	json.Unmarshal(c.Data, &d)
-	w := world.New(world.Conf{})
+	w := world.New(world.Conf{"log.assert_behavior": 3})
 	w.Net.QuiesceTimeout = 20 * time.Second
 	defer w.Close()
 	var healthySub *world.RtmpPeer
@@ -428,6 +431,28 @@ func buildCases(r *vk.Run) []protox.Case {
 						left -= x
 					}
 					cs = append(cs, mkCase("fresh", "complex-handshake", fmt.Sprintf("ver %x offset bytes at %d sum %d", ver, at, sum), append(h, make([]byte, 1536)...), -1))
+				}
+			}
+		}
+	}
+	// (vi') a message left in progress on a chunk stream (first chunk of a longer message), then a new
+	// message header on the same chunk stream that announces every smaller / equal / larger length, in
+	// header formats 0 and 1, followed by a full chunk of data
+	for _, st := range []string{"handshaken", "publishing"} {
+		for _, have := range []int{1, 127, 128} {
+			first := rawChunk(0, 3, 0, 300, 20, 0, false, 0, make([]byte, have))
+			if have < 128 {
+				first = rawChunk(0, 3, 0, uint32(have+200), 20, 0, false, 0, make([]byte, have))
+			}
+			for _, f := range []uint8{0, 1} {
+				for _, l := range []int{0, 1, have - 1, have, have + 1, 127, 128, 129, 299, 300, 301} {
+					if l < 0 {
+						continue
+					}
+					// (a whole chunk of data follows whatever the header says: the reader decides how much of it
+					// belongs to the message)
+					second := rawChunk(f, 3, 0, uint32(l), 20, 0, false, 0, make([]byte, 128))
+					cs = append(cs, mkCase(st, "msglen-changes-mid-message", fmt.Sprintf("have %d then fmt%d len %d", have, f, l), append(append(stagePrefixTail(st), first...), second...), -1))
 				}
 			}
 		}
